@@ -5,7 +5,7 @@ from . import common, pipeline
 
 PROPERTY = "C05"
 LEVEL = "exploration"
-BUDGET = {"quick": 40, "thorough": 600}
+BUDGET = {"quick": 60, "thorough": 600}
 EVIDENCE = {
     "rule": "pipeline family with the poll timeout taken as infinite (select/poll only return on readiness), "
             "response sizes drawn around sendbuf_len, send_bytes and outbuf_high_watermark, 1-3 connections, both "
